@@ -243,40 +243,40 @@ Qed.
 
 Lemma st_register_returns : forall id m,
   clean m -> mem_lk LStore (held m) = false ->
-  returns X (st_register id) m (fun _ _ => True).
+  returns X (st_register id) m (fun _ m' => parked (os m') = parked (os m)).
 Proof.
   intros id m C Hn. unfold st_register.
   destruct (lookup id (store (os m))) eqn:E.
-  - destruct (with_store_returns _ X (sf_register id) m tt (os m) C Hn) as (a & m' & H1 & H2 & _).
+  - destruct (with_store_returns _ X (sf_register id) m tt (os m) C Hn) as (a & m' & H1 & H2 & _ & H3).
     + unfold sf_register. rewrite E. reflexivity.
     + apply sfo_same.
-    + exists a, m'. auto.
+    + exists a, m'. split; [exact H1|]. split; [exact H2|]. rewrite H3. reflexivity.
   - destruct (with_store_returns _ X (sf_register id) m tt (set_store (os m) (update id (Req []) (store (os m)))) C Hn)
-      as (a & m' & H1 & H2 & _).
+      as (a & m' & H1 & H2 & _ & H3).
     + unfold sf_register. rewrite E. reflexivity.
     + apply sfo_update_nohave. intros t. rewrite E. discriminate.
-    + exists a, m'. auto.
+    + exists a, m'. split; [exact H1|]. split; [exact H2|]. rewrite H3. reflexivity.
 Qed.
 
 Lemma st_unregister_returns : forall id m,
   clean m -> mem_lk LStore (held m) = false ->
-  returns X (st_unregister id) m (fun _ _ => True).
+  returns X (st_unregister id) m (fun _ m' => parked (os m') = parked (os m)).
 Proof.
   intros id m C Hn. unfold st_unregister.
   destruct (lookup id (store (os m))) as [[asked|t]|] eqn:E.
   - destruct (with_store_returns _ X (sf_unregister id) m tt (set_store (os m) (delete id (store (os m)))) C Hn)
-      as (a & m' & H1 & H2 & _).
+      as (a & m' & H1 & H2 & _ & H3).
     + unfold sf_unregister. rewrite E. reflexivity.
     + apply sfo_delete_nohave. intros t. rewrite E. discriminate.
-    + exists a, m'. auto.
-  - destruct (with_store_returns _ X (sf_unregister id) m tt (os m) C Hn) as (a & m' & H1 & H2 & _).
+    + exists a, m'. split; [exact H1|]. split; [exact H2|]. rewrite H3. reflexivity.
+  - destruct (with_store_returns _ X (sf_unregister id) m tt (os m) C Hn) as (a & m' & H1 & H2 & _ & H3).
     + unfold sf_unregister. rewrite E. reflexivity.
     + apply sfo_same.
-    + exists a, m'. auto.
-  - destruct (with_store_returns _ X (sf_unregister id) m tt (os m) C Hn) as (a & m' & H1 & H2 & _).
+    + exists a, m'. split; [exact H1|]. split; [exact H2|]. rewrite H3. reflexivity.
+  - destruct (with_store_returns _ X (sf_unregister id) m tt (os m) C Hn) as (a & m' & H1 & H2 & _ & H3).
     + unfold sf_unregister. rewrite E. reflexivity.
     + apply sfo_same.
-    + exists a, m'. auto.
+    + exists a, m'. split; [exact H1|]. split; [exact H2|]. rewrite H3. reflexivity.
 Qed.
 
 Lemma st_note_asked_returns : forall id p add m,
@@ -639,14 +639,10 @@ Proof.
     intros y m2 Hy. apply Hf. right. exact Hy.
 Qed.
 
-Section Fixed.
+Section Fixed71.
 Variable X : nat -> Prop.
-(* the procedures for any variant that has the repairs F26, F71, F72; the crash / leak
-   repairs F05 F06 F07 F08 F70 may be missing: their input classes are hypotheses *)
 Variable fx : fixes.
-Hypothesis H26 : f26 fx = true.
 Hypothesis H71 : f71 fx = true.
-Hypothesis H72 : f72 fx = true.
 
 Ltac hf := let a := fresh in let m := fresh in let H := fresh in
            intros a m H; cbn [os held evs]; tauto.
@@ -670,8 +666,8 @@ Proof.
   apply sfo_update_nohave. intros t. rewrite E. discriminate.
 Qed.
 
-(* requestTree: the message is parked; a peer that has not been asked for the tree is asked *)
-Lemma request_tree_returns : forall pm m,
+(* requestTree with F71: the message is parked; a peer that has not been asked for the tree is asked *)
+Lemma request_tree_returns_71 : forall pm m,
   ready [] m ->
   returns X (request_tree fx pm) m
           (fun _ m' =>
@@ -763,6 +759,72 @@ Proof.
 Qed.
 
 
+End Fixed71.
+
+Section Fixed.
+Variable X : nat -> Prop.
+(* the procedures for any variant that has the repairs F26 and F72; F71 and the crash /
+   leak repairs F05 F06 F07 F08 F70 may be missing: the input classes of the latter are
+   hypotheses *)
+Variable fx : fixes.
+Hypothesis H26 : f26 fx = true.
+Hypothesis H72 : f72 fx = true.
+
+Ltac hf := let a := fresh in let m := fresh in let H := fresh in
+           intros a m H; cbn [os held evs]; tauto.
+
+(* requestTree: the message is parked; with F71 a peer that has not been asked is asked *)
+Lemma request_tree_returns : forall pm m,
+  ready [] m ->
+  returns X (request_tree fx pm) m
+          (fun _ m' =>
+             In pm (parked (os m')) /\
+             (f71 fx = true -> reachable (p_peer pm) = true ->
+              (lookup (tk_tree (p_to pm)) (store (os m)) = None \/
+               exists asked, lookup (tk_tree (p_to pm)) (store (os m)) = Some (Req asked) /\
+                             mem_nat (p_peer pm) asked = false) ->
+              In (ESend (p_peer pm) (RReqTree (tk_tree (p_to pm)))) (evs m') /\
+              exists asked', lookup (tk_tree (p_to pm)) (store (os m')) = Some (Req asked'))).
+Proof.
+  intros pm m R. destruct (f71 fx) eqn:H71.
+  { eapply returns_weaken; [apply request_tree_returns_71; assumption|].
+    intros a m' _ (A & B). split; [exact A|]. intros _. exact B. }
+  destruct R as (C & Hh & Hi). unfold request_tree. rewrite H71.
+  set (id := tk_tree (p_to pm)). set (p := p_peer pm).
+  eapply bind_returns.
+  { apply locked_returns with (Q := fun _ m' => os m' = set_parked (os m) (parked (os m) ++ [pm]));
+      [exact C|rewrite Hh; reflexivity|hf|].
+    eapply bind_returns; [apply access_returns; reflexivity|]. intros [] m1 X1 Ho1.
+    eapply returns_weaken.
+    { apply modify_returns. repeat split; cbn [set_parked leaked store insts]. auto. }
+    intros a m' _ (Ho' & _). rewrite Ho', Ho1. reflexivity. }
+  intros [] m1 X1 Ho1.
+  assert (C1 : clean m1) by (eapply clean_ext; eassumption).
+  assert (H1 : held m1 = []) by (rewrite (ext_held _ _ _ X1); exact Hh).
+  assert (Hp1 : In pm (parked (os m1))).
+  { rewrite Ho1. cbn [set_parked parked]. apply in_or_app. right. left. reflexivity. }
+  eapply bind_returns; [apply st_lookup_returns; [exact C1|rewrite H1; reflexivity]|].
+  intros e m2 X2 (-> & Ho2).
+  assert (C2 : clean m2) by (eapply clean_ext; eassumption).
+  assert (H2 : held m2 = []) by (rewrite (ext_held _ _ _ X2); exact H1).
+  destruct (lookup id (store (os m1))) as [[asked|t]|].
+  1,2: (eapply returns_weaken; [apply ret_returns|]; intros a m' _ (_ & ->); rewrite Ho2;
+        split; [exact Hp1|intros E; discriminate E]).
+  eapply bind_returns; [apply st_register_returns; [exact C2|rewrite H2; reflexivity]|].
+  intros [] m3 X3 Hp3.
+  assert (C3 : clean m3) by (eapply clean_ext; eassumption).
+  assert (H3 : held m3 = []) by (rewrite (ext_held _ _ _ X3); exact H2).
+  eapply bind_returns; [eapply returns_weaken; [apply ret_returns|]; intros ? ? _ H; exact H|].
+  intros [] m4 X4 (_ & ->).
+  eapply bind_returns; [apply send_returns|]. intros ok m5 X5 (_ & Ho5 & _).
+  assert (Hp5 : In pm (parked (os m5))) by (rewrite Ho5, Hp3, Ho2; exact Hp1).
+  destruct ok.
+  - eapply returns_weaken; [apply ret_returns|]. intros a m' _ (_ & ->). split; [exact Hp5|intros E; discriminate E].
+  - eapply returns_weaken.
+    { apply st_unregister_returns; [eapply clean_ext; eassumption|rewrite (ext_held _ _ _ X5); rewrite H3; reflexivity]. }
+    intros a m' _ Hp'. split; [rewrite Hp'; exact Hp5|intros E; discriminate E].
+Qed.
+
 (* the conditions under which TransmitMsg hands a message to the protocol's handler *)
 Definition will_deliver (s : ostate) (t : stree) (pm : pmsg) (f : token) : Prop :=
   mem_tok (p_to pm) (finished s) = false /\
@@ -780,7 +842,7 @@ Lemma transmit_returns : forall sender from to b m,
                             In (EDeliver k (tk_node f)) (evs m')) /\
                ((forall t, lookup (tk_tree k) (store (os m)) <> Some (Have t)) ->
                 In (mkP sender from k b) (parked (os m')) /\
-                (reachable sender = true ->
+                (f71 fx = true -> reachable sender = true ->
                  (lookup (tk_tree k) (store (os m)) = None \/
                   exists asked, lookup (tk_tree k) (store (os m)) = Some (Req asked) /\ mem_nat sender asked = false) ->
                  In (ESend sender (RReqTree (tk_tree k))) (evs m') /\
@@ -874,43 +936,36 @@ Proof.
   eapply returns_weaken; [apply flush_returns|auto]. destruct R1 as (C1 & H1 & I1). repeat split; assumption.
 Qed.
 
-(* a tree that came from a peer is stored only where no tree is stored *)
-Lemma store_peer_tree_returns : forall t m,
+(* RegisterTree for a tree that came from a peer: with F72 it is only reached where no
+   tree is stored under that id *)
+Lemma register_absent_returns : forall t m,
   clean m -> mem_lk LStore (held m) = false -> insts_have (os m) ->
-  returns X (store_peer_tree fx t) m
+  (forall t0, lookup (t_id t) (store (os m)) <> Some (Have t0)) ->
+  returns X (register_tree fx t) m
           (fun _ m' =>
              forall pm f,
-               (forall t0, lookup (t_id t) (store (os m)) <> Some (Have t0)) ->
                filter (fun pm => tk_tree (p_to pm) =? t_id t) (parked (os m)) = [pm] ->
                will_deliver (os m) t pm f ->
                (~ X (t_id t) -> lookup (t_id t) (store (os m')) = Some (Have t)) /\
                In (EDeliver (p_to pm) (tk_node f)) (evs m')).
 Proof.
-  intros t m C Hn Hi. unfold store_peer_tree. rewrite H72.
-  destruct (lookup (t_id t) (store (os m))) as [[asked|t0]|] eqn:El.
-  2:{ (* a tree is stored under this id: nothing happens *)
-      eapply bind_returns.
-      { unfold st_set_if_absent. eapply with_store_returns; [exact C|exact Hn| |apply sfo_same].
-        unfold sf_set_if_absent. rewrite El. reflexivity. }
-      intros ok m1 X1 (-> & Ho1). eapply returns_weaken; [apply ret_returns|].
-      intros a m' _ _ pm f Hno. exfalso. exact (Hno _ eq_refl). }
-  all: eapply bind_returns;
-    [unfold st_set_if_absent; eapply with_store_returns; [exact C|exact Hn| |apply sfo_put_tree; right; intros t0; rewrite El; discriminate];
-     unfold sf_set_if_absent; rewrite El; reflexivity|].
-  all: intros ok m1 X1 (-> & Ho1).
-  all: assert (Hl1 : lookup (t_id t) (store (os m1)) = Some (Have t))
-         by (rewrite Ho1; unfold put_tree; cbn [set_store store]; rewrite lookup_update, Nat.eqb_refl; reflexivity).
-  all: assert (C1 : clean m1) by (eapply clean_ext; eassumption).
-  all: assert (I1 : insts_have (os m1)) by (apply (ext_insts _ _ _ X1), Hi).
-  all: eapply returns_weaken;
-    [apply spawn_returns with
-       (Q := fun _ m' => forall pm f,
-                filter (fun pm => tk_tree (p_to pm) =? t_id t) (parked (os m1)) = [pm] ->
-                lookup (t_id t) (store (os m1)) = Some (Have t) ->
-                will_deliver (os m1) t pm f -> In (EDeliver (p_to pm) (tk_node f)) (evs m'));
-       [hf|eapply returns_weaken; [apply flush_returns; repeat split; assumption|];
-           intros ? ? _ H; cbn [os] in H; exact H]|].
-  all: intros a m' Hx Hq pm f _ Hf W; split;
+  intros t m C Hn Hi Hno. unfold register_tree.
+  eapply bind_returns.
+  { unfold st_set. eapply with_store_returns; [exact C|exact Hn|reflexivity|apply sfo_put_tree; right; exact Hno]. }
+  intros [] m1 X1 (_ & Ho1).
+  assert (Hl1 : lookup (t_id t) (store (os m1)) = Some (Have t))
+    by (rewrite Ho1; unfold put_tree; cbn [set_store store]; rewrite lookup_update, Nat.eqb_refl; reflexivity).
+  assert (C1 : clean m1) by (eapply clean_ext; eassumption).
+  assert (I1 : insts_have (os m1)) by (apply (ext_insts _ _ _ X1), Hi).
+  eapply returns_weaken.
+  { apply spawn_returns with
+      (Q := fun _ m' => forall pm f,
+               filter (fun pm => tk_tree (p_to pm) =? t_id t) (parked (os m1)) = [pm] ->
+               lookup (t_id t) (store (os m1)) = Some (Have t) ->
+               will_deliver (os m1) t pm f -> In (EDeliver (p_to pm) (tk_node f)) (evs m'));
+      [hf|eapply returns_weaken; [apply flush_returns; repeat split; assumption|];
+          intros ? ? _ H; cbn [os] in H; exact H]. }
+  intros a m' Hx Hq pm f Hf W; split;
     [ intros Hnx; apply (ext_keeps _ _ _ Hx); assumption
     | apply Hq; [rewrite Ho1; exact Hf|exact Hl1|rewrite Ho1; exact W] ].
 Qed.
@@ -963,19 +1018,20 @@ Proof.
   assert (C1 : clean m1) by (eapply clean_ext; eassumption).
   assert (H1 : mem_lk LStore (held m1) = false) by (rewrite (ext_held _ _ _ X1); exact Hn).
   assert (I1 : insts_have (os m1)) by (apply (ext_insts _ _ _ X1), Hi).
-  destruct (lookup (tm_tree tm) (store (os m))) as [e|] eqn:El.
-  2:{ eapply returns_weaken; [apply ret_returns|]. intros a m' _ _ tm' ro' t pm f E1 E2 _ Hm (asked & Ha).
-      inversion E1; subst tm'. inversion E2; subst ro'.
-      destruct (make_tree_benign tm ro (Hb _ _ eq_refl eq_refl)) as [Em|(c & _ & _ & Em)]; rewrite Em in Hm; [discriminate|].
-      inversion Hm; subst t. cbn [t_id] in Ha. congruence. }
+  destruct (lookup (tm_tree tm) (store (os m))) as [[asked0|t0]|] eqn:El; cbn [awaited]; rewrite ?H72; cbn [negb].
+  2,3: (eapply returns_weaken; [apply ret_returns|]; intros a m' _ _ tm' ro' t pm f E1 E2 _ Hm (asked & Ha);
+        inversion E1; subst tm'; inversion E2; subst ro';
+        destruct (make_tree_benign tm ro (Hb _ _ eq_refl eq_refl)) as [Em|(c & _ & _ & Em)]; rewrite Em in Hm; [discriminate|];
+        inversion Hm; subst t; cbn [t_id] in Ha; congruence).
   destruct (make_tree_benign tm ro (Hb _ _ eq_refl eq_refl)) as [Em|(c & _ & _ & Em)]; rewrite Em.
   { eapply returns_weaken; [apply ret_returns|]. intros a m' _ _ tm' ro' t pm f E1 E2 _ Hm.
     inversion E1; subst tm'. inversion E2; subst ro'. rewrite Em in Hm. discriminate. }
-  eapply returns_weaken; [apply store_peer_tree_returns; assumption|].
+  eapply returns_weaken.
+  { apply register_absent_returns; [exact C1|exact H1|exact I1|].
+    intros t1. cbn [t_id]. rewrite Ho1, El. discriminate. }
   intros a m' _ Hq tm' ro' t pm f E1 E2 _ Hm (asked & Ha) Hf W.
   inversion E1; subst tm'. inversion E2; subst ro'. rewrite Em in Hm. inversion Hm; subst t.
   apply Hq.
-  - intros t0. rewrite Ho1, Ha. discriminate.
   - rewrite Ho1. exact Hf.
   - rewrite Ho1. exact W.
 Qed.
@@ -1051,8 +1107,8 @@ Proof.
   intros e m1 X1 (-> & Ho1).
   assert (R1 : ready [] m1) by (eapply ready_ext; eassumption).
   destruct R1 as (C1 & H1 & I1).
-  destruct (lookup (tm_tree tm) (store (os m))).
-  2:{ eapply returns_weaken; [apply ret_returns|auto]. }
+  destruct (lookup (tm_tree tm) (store (os m))) as [[asked0|t0]|]; cbn [awaited]; rewrite ?H72; cbn [negb].
+  2,3: (eapply returns_weaken; [apply ret_returns|auto]).
   rewrite H26.
   eapply bind_returns.
   { apply locked_returns with
@@ -1086,6 +1142,25 @@ Proof.
     auto.
 Qed.
 
+(* one pending description: skipped when its tree is present, else rebuilt and stored *)
+Lemma pending_one_returns : forall ro tm m,
+  clean m -> mem_lk LStore (held m) = false -> insts_have (os m) -> benign_mk fx tm ro ->
+  returns X (pending_one fx ro tm) m (fun _ _ => True).
+Proof.
+  intros ro tm m C Hn Hi Bm. unfold pending_one. rewrite H72.
+  eapply bind_returns; [apply st_lookup_returns; assumption|].
+  intros e m1 X1 (-> & Ho1).
+  assert (C1 : clean m1) by (eapply clean_ext; eassumption).
+  assert (H1 : mem_lk LStore (held m1) = false) by (rewrite (ext_held _ _ _ X1); exact Hn).
+  assert (I1 : insts_have (os m1)) by (apply (ext_insts _ _ _ X1), Hi).
+  destruct (lookup (tm_tree tm) (store (os m))) as [[asked|t0]|] eqn:El.
+  2:{ eapply returns_weaken; [apply ret_returns|auto]. }
+  all: destruct (make_tree_benign tm ro Bm) as [Em|(c & _ & _ & Em)]; rewrite Em;
+    [eapply returns_weaken; [apply ret_returns|auto]|].
+  all: eapply returns_weaken;
+    [apply register_absent_returns; [exact C1|exact H1|exact I1|intros t1; cbn [t_id]; rewrite Ho1, El; discriminate]|auto].
+Qed.
+
 (* checkPendingTreeMarshal with its early return repaired is a plain critical section *)
 Lemma check_pending_tm_returns : forall ro m,
   ready [] m ->
@@ -1093,9 +1168,8 @@ Lemma check_pending_tm_returns : forall ro m,
   (forall tm, In tm (ptm (os m)) -> tm_roster tm = ro_id ro -> benign_mk fx tm ro) ->
   returns X (check_pending_tm fx ro) m (fun _ _ => True).
 Proof.
-  intros ro m R H8 Hb. pose proof R as (C & Hh & Hi). unfold check_pending_tm.
-  set (F := fun tm => match make_tree fx tm ro with
-                      | MTErr => ret tt | MTCrash c => panic c | MTOk t => store_peer_tree fx t end).
+  intros ro m R H8 Hb. pose proof R as (C & Hh & Hi). unfold check_pending_tm. rewrite H72.
+  set (consume := fun s : ostate => set_ptm s (filter (fun tm => negb (tm_roster tm =? ro_id ro)) (ptm s))).
   (* run the acquire by hand *)
   set (m0 := mkM (os m) [LPTree] (evs m)).
   assert (Ea : acquire LPTree m = Ret tt m0).
@@ -1104,33 +1178,40 @@ Proof.
   assert (P0 : clean m0 /\ held m0 = [LPTree] /\ insts_have (os m0)) by (repeat split; assumption).
   (* the body up to the release *)
   assert (Body : returns X (access TPTM ;; s <- get ;;
-                            miter F (filter (fun tm => tm_roster tm =? ro_id ro) (ptm s))) m0 (fun _ _ => True)).
+                            match filter (fun tm => tm_roster tm =? ro_id ro) (ptm s) with
+                            | [] => ret tt
+                            | sl => modify consume ;; miter (pending_one fx ro) sl
+                            end) m0 (fun _ _ => True)).
   { eapply bind_returns; [apply access_returns; reflexivity|]. intros [] m1 X1 Ho1.
     eapply bind_returns; [apply get_returns|]. intros s m2 X2 (-> & ->).
+    assert (P1 : clean m1 /\ held m1 = [LPTree] /\ insts_have (os m1)) by (eapply ready_ext; eassumption).
+    destruct (filter (fun tm => tm_roster tm =? ro_id ro) (ptm (os m1))) as [|tm0 rest] eqn:Ef.
+    { eapply returns_weaken; [apply ret_returns|auto]. }
+    eapply bind_returns.
+    { apply modify_returns. unfold consume. repeat split; cbn [set_ptm leaked store insts]. auto. }
+    intros [] m3 X3 _.
     eapply returns_weaken.
     { apply miter_returns_in with (P := fun m => clean m /\ held m = [LPTree] /\ insts_have (os m)).
       - eapply ready_ext; eassumption.
-      - intros tm m3 Hin (C3 & H3 & I3). unfold F.
+      - intros tm m4 Hin (C4 & H4 & I4).
         assert (Bm : benign_mk fx tm ro).
-        { apply filter_In in Hin as [Hin Heq]. apply Nat.eqb_eq in Heq. apply Hb; [|exact Heq].
+        { rewrite <- Ef in Hin. apply filter_In in Hin as [Hin Heq]. apply Nat.eqb_eq in Heq. apply Hb; [|exact Heq].
           rewrite Ho1 in Hin. exact Hin. }
-        destruct (make_tree_benign tm ro Bm) as [Em|(c & _ & _ & Em)]; rewrite Em.
-        + eapply returns_weaken; [apply ret_returns|]. intros a m' _ (_ & ->). repeat split; assumption.
-        + eapply returns_weaken; [apply store_peer_tree_returns; [exact C3|rewrite H3; reflexivity|exact I3]|].
-          intros a m' Hx _. eapply (ready_ext X [LPTree]); [|exact Hx]. repeat split; assumption. }
+        eapply returns_weaken; [apply pending_one_returns; [exact C4|rewrite H4; reflexivity|exact I4|exact Bm]|].
+        intros a m' Hx _. eapply (ready_ext X [LPTree]); [|exact Hx]. repeat split; assumption. }
     auto. }
   destruct Body as ([] & m1 & E1 & X1 & _).
   exists tt, (mkM (os m1) [] (evs m1)). split; [|split; [|exact I]].
   - unfold bind at 1. rewrite Ea.
     unfold bind in E1. unfold bind.
     destruct (access TPTM m0) as [[] ma|] eqn:Eacc; [|discriminate].
-    unfold get in *. 
+    unfold get in *.
     destruct (filter (fun tm => tm_roster tm =? ro_id ro) (ptm (os ma))) as [|tm0 rest] eqn:Ef.
-    + cbn [miter] in E1. unfold ret in E1. inversion E1; subst m1.
+    + unfold ret in E1. inversion E1; subst m1.
       destruct H8 as [H8|H8].
       2:{ exfalso. apply H8. unfold access in Eacc. inversion Eacc; subst ma. exact Ef. }
       rewrite H8. unfold release. rewrite (ext_held _ _ _ X1). reflexivity.
-    + fold F. rewrite E1. unfold release. rewrite (ext_held _ _ _ X1). reflexivity.
+    + unfold modify in E1 |- *. fold consume. rewrite E1. unfold release. rewrite (ext_held _ _ _ X1). reflexivity.
   - destruct X1 as [h l v k i d e]. constructor; cbn [os held evs] in *; auto.
 Qed.
 
@@ -1196,8 +1277,8 @@ End Fixed.
 Definition touches (o : op) : nat -> Prop :=
   match o with LocalTree t => fun id => id = t_id t | _ => noX end.
 
-(* variants of the code that have the repairs F26, F71 and F72 *)
-Definition base_fixed (fx : fixes) : Prop := f26 fx = true /\ f71 fx = true /\ f72 fx = true.
+(* variants of the code that have the repairs F26 and F72 *)
+Definition base_fixed (fx : fixes) : Prop := f26 fx = true /\ f72 fx = true.
 
 Lemma benign_all_fixed : forall s o, benign all_fixed s o.
 Proof.
@@ -1212,10 +1293,10 @@ Lemma run_op_returns : forall fx o m,
   base_fixed fx -> ready [] m -> benign fx (os m) o ->
   returns (touches o) (run_op fx o) m (fun _ _ => True).
 Proof.
-  intros fx o m (H26 & H71 & H72) R B. pose proof R as (C & Hh & Hi).
+  intros fx o m (H26 & H72) R B. pose proof R as (C & Hh & Hi).
   destruct o as [p cfg nf msg|t|k]; cbn [run_op touches].
   - apply process_returns; assumption.
-  - apply register_tree_returns; [exact H71|exact R|reflexivity].
+  - apply register_tree_returns; [exact R|reflexivity].
   - apply locked_returns; [exact C|rewrite Hh; reflexivity|intros a m0 H _; exact I|].
     eapply returns_weaken; [apply node_delete_returns|auto]; [exact C|cbn [held]; rewrite Hh; reflexivity|reflexivity].
 Qed.
@@ -1407,7 +1488,7 @@ Theorem serves_protocol_message : forall s p nf from k t f,
 Proof.
   intros s p nf from k t f I Ht W. pose proof I as (Hl & Hi).
   edestruct (step_of_returns all_fixed s (Recv p false nf (MProto from (Some k) BPing))) as (m' & E & Hx & Hq); [exact I| |].
-  { cbn [run_op process touches]. apply transmit_returns; [reflexivity|repeat split; assumption|discriminate]. }
+  { cbn [run_op process touches]. apply transmit_returns; [repeat split; assumption|discriminate]. }
   cbn zeta. rewrite E. cbn [r_out r_events]. split; [reflexivity|].
   apply In_rev_iff. destruct (Hq k eq_refl) as (Hd & _). apply (Hd t f); assumption.
 Qed.
@@ -1427,13 +1508,13 @@ Proof.
   intros s p nf from k b I Hb Hr Hs. pose proof I as (Hl & Hi).
   edestruct (step_of_returns all_fixed s (Recv p false nf (MProto from (Some k) b))) as (m' & E & Hx & Hq); [exact I| |].
   { cbn [run_op process touches].
-    destruct b; [| |contradiction]; (apply transmit_returns; [reflexivity|repeat split; assumption|discriminate]). }
+    destruct b; [| |contradiction]; (apply transmit_returns; [repeat split; assumption|discriminate]). }
   cbn zeta. rewrite E. cbn [r_out r_events r_state]. split; [reflexivity|].
   assert (Hq' : forall k0, Some k = Some k0 -> _) by (destruct b; [exact Hq|exact Hq|contradiction]).
   destruct (Hq' k eq_refl) as (_ & Hp).
   destruct Hp as (Hpark & Hask).
   { intros t Ht. cbn [os] in Ht. destruct Hs as [Hs|(a & Hs & _)]; rewrite Hs in Ht; discriminate. }
-  destruct (Hask Hr Hs) as (Hsend & Hreq).
+  destruct (Hask eq_refl Hr Hs) as (Hsend & Hreq).
   split; [apply In_rev_iff; exact Hsend|]. split; assumption.
 Qed.
 
